@@ -20,7 +20,7 @@ def queries():
         for memory in (1, 64, 4096):
             qs.append(mk(5, 3, 1, lcp, 2, memory, False))
         qs.append(mk(0, 5, 3, lcp, 0, 0, False)); qs.append(mk(2, 4, 2, lcp, 2, 0, False)); qs.append(mk(2, 5, 2, lcp, 3, 0, False))
-    qs.append(Query('std_n2_l2', SRC, 'h_strsort_std', 'sort_strings on 2 std::string objects of length 0..2 (NUL-free bytes): sorted and a permutation of the contents', defs=['N=2', 'MAXLEN=2'], ll2c=['--alloc-cap', '4096'], timeout=1800, unwind=4, max_unwind=300))
+    qs.append(Query('std_n2_l2', SRC, 'h_strsort_std', 'sort_strings on 2 std::string objects of length 0..2 (NUL-free bytes): sorted and a permutation of the contents', defs=['N=2', 'MAXLEN=2'], ll2c=['--alloc-cap', '4096'], timeout=1800, unwind=4, max_unwind=300, tiers=('thorough',)))   # measured: no verdict within 1800 s
     qs.append(Query('std_n3_l2', SRC, 'h_strsort_std', 'sort_strings on 3 std::string objects of length 0..2', defs=['N=3', 'MAXLEN=2'], ll2c=['--alloc-cap', '4096'], timeout=7200, unwind=4, max_unwind=300, tiers=('thorough',)))
     return qs
 
